@@ -120,6 +120,9 @@ DupAckEv == /\ Here /\ Ev.e = "A" /\ Ev.ackno = la
             /\ Ev.nrx <= 1 /\ (Ev.nrx = 1 => Ev.seq = la)
             /\ DupAck(Cw, Ss, Cb, Ev.nrx = 1)
             /\ SameRtt /\ Ro = rto /\ SameSeq /\ Ev.dup = dup + 1 /\ Floor /\ Consume
+IdleDupEv == /\ Here /\ Ev.e = "A" /\ Ev.ackno = la /\ Ev.nrx = 0
+             /\ IdleDup
+             /\ SameWindow /\ SameRtt /\ Ro = rto /\ SameSeq /\ Ev.dup = dup /\ Consume
 TimeoutEv == /\ Here /\ Ev.e = "T" /\ Ev.nrx = 1
              /\ Timeout(Ev.seq, Cw, Ss, Cb, Ev.dup, Ro)
              /\ SameRtt /\ SameSeq /\ Floor /\ Consume
@@ -130,7 +133,7 @@ QuietEv == /\ Here /\ Ev.e = "Q"
 \* before the event that reports it, so a Send is judged on the buffer AND the window as they are at that moment.
 AppDataEv == More /\ Ev.buf > buf /\ AppData(Ev.buf) /\ Keep
 TickEv == More /\ now # T /\ ~(Ev.t = 0 /\ now = <<0, 0>>) /\ TickTo(T) /\ Keep
-Next == AppDataEv \/ SendEv \/ NewAckEv \/ DupAckEv \/ TimeoutEv \/ QuietEv \/ TickEv
+Next == AppDataEv \/ SendEv \/ NewAckEv \/ DupAckEv \/ IdleDupEv \/ TimeoutEv \/ QuietEv \/ TickEv
 Spec == Init /\ [][Next]_vars
 
 Mark == TLCSet(tid, IF l > TLCGet(tid) THEN l ELSE TLCGet(tid))
